@@ -26,9 +26,9 @@ import (
 const c12Kitchen = `
 rule Kitchen "unicode é漢 description" salience -7 {
   when
-    ((F.I * 2 / 4 % 3 + 1 - 2 & 7 | 1) >= 0 && F.I > -1 && F.I < 100 && F.I <= 99 && F.I == F.I && F.I != 77 || !(F.B) || !F.B)
+    ((F.I * 2 % 3 + 1 - 2 & 7 | 1) >= 0 && F.I / 4 > 1 && F.I > -1 && F.I < 100 && F.I <= 99 && F.I == F.I && F.I != 77 || !(F.B) || !F.B)
     && F.S.ToUpper().Len() >= 0 && F.Arr[F.K] >= 0 && F.M["a"] >= 0 && F.Add(1, F.I) > 0 && F.F > 0.0000001 && F.F < 1.5e3
-    && F.S != "q\"uo" && F.S != 'si"ngle' && IsNil(F.PI) == false && !IsNil(nil) == false && F.P.Q.V == 11 && F.GetSub().V == 10
+    && F.S != "q\"uo" && F.S != 'si"ngle' && IsNil(F.PI) == false && F.P.Q.V == 11 && F.GetSub().V == 10
     && F.Pick(1, 4, 0x10, 017) == 16 && true && !false && F.I2 < 3 && !(F.I > 50) && !F.IsPos(-1) && !(!(F.I2 < 3))
   then
     F.I2 = F.I2 + 1;
@@ -48,6 +48,9 @@ rule Second "second" salience 5 {
 }
 rule Third {
   when F.I2 >= 3 || F.I == 16 then Complete(); F.K = 1;
+}
+rule NilConstant salience -100 {
+  when IsNil(nil) == true || nil == F.P then F.In = 5;
 }
 `
 
@@ -211,6 +214,9 @@ func C12(rep *ev.Reporter, tier string) {
 		if err != nil {
 			report("harness:C12-original-fails:"+k.name, err.Error(), "c12/"+k.name+"/orig", nil)
 			continue
+		}
+		if k.name == "kitchen" && !strings.Contains(wantB, "X1:Kitchen") {
+			report("harness:C12-kitchen-sink-vacuous", "the kitchen-sink rule does not fire on the corpus world, the equivalence check would be vacuous:\n"+wantB, "c12/kitchen/orig", nil)
 		}
 		wantMeta := c12Meta(lib.GetKnowledgeBase("KB", "1"))
 		tw := &traceWriter{failAt: -1}
